@@ -54,6 +54,8 @@ class NotOrMacro(Macro):
         prevs is the negative disjunction
         """
         goal, pt0 = args[0], prevs[0]
+        if len(args) != 1 or not goal.is_not() or not pt0.prop.is_not():
+            raise VeriTException("not_or", "unexpected result")
         disjs = pt0.prop.arg.strip_disj()
         for d in disjs:
             if d == goal.arg:
@@ -84,8 +86,12 @@ class NotAndMacro(Macro):
 
     def eval(self, args, prevs):
         goal, pt0 = Or(*args), prevs[0]
+        if not pt0.prop.is_not():
+            raise VeriTException("not_and", "unexpected premise: %s" % pt0.prop)
         conj_atoms = pt0.prop.arg.strip_conj()
         disj_atoms = goal.strip_disj()
+        if len(conj_atoms) != len(disj_atoms):
+            raise VeriTException("not_and", "unexpected goal: %s" % goal)
         for i, j in zip(conj_atoms, disj_atoms):
             if Not(i) != j:
                 raise VeriTException("not_and", "unexpected goal: %s" % goal)
@@ -109,7 +115,8 @@ class NotNotMacro(Macro):
 
     def eval(self, args, prevs=None):
         neg_arg, pos_arg = args
-        if neg_arg.arg.arg.arg == pos_arg:
+        if neg_arg.is_not() and neg_arg.arg.is_not() and neg_arg.arg.arg.is_not() and \
+           neg_arg.arg.arg.arg == pos_arg:
             return Thm(Or(neg_arg, pos_arg))
         else:
             raise VeriTException("not_not", "unexpected goal: %s" % Or(*args))
@@ -490,6 +497,8 @@ class VeritImpliesMacro(Macro):
         # goal : ~a | b  pt: |- a --> b
         goal = Or(*args)
         pt = prevs[0]
+        if not pt.prop.is_implies():
+            raise VeriTException("implies", "premise is not an implication")
         if Or(Not(pt.prop.arg1), pt.prop.arg) == goal:
             return Thm(goal, pt.hyps)
         else:
@@ -509,6 +518,8 @@ class VeriTAndPos(Macro):
     def eval(self, args, prevs=None):
         # args: ~(p1 & p2 & ... & pn) and pk
         neg_conj, pk = args
+        if not neg_conj.is_not():
+            raise VeriTException("and_pos", "first literal is not a negation")
         conjs = neg_conj.arg.strip_conj()
         if pk in conjs:
             return Thm(Or(neg_conj, pk))
@@ -537,6 +548,8 @@ class VeriTOrPos(Macro):
 
     def eval(self, args, prevs=None):
         neg_disj = args[0]
+        if not neg_disj.is_not():
+            raise VeriTException("or_pos", "unexpected goal: %s" % Or(*args))
         disjs = neg_disj.arg.strip_disj()
         for a, b in zip(disjs, args[1:]):
             if a != b:
@@ -564,6 +577,8 @@ class VeriTNotEquiv1(Macro):
     def eval(self, args, prevs):
         pt = prevs[0]
         p1, p2 = args
+        if not (pt.prop.is_not() and pt.prop.arg.is_equals()):
+            raise VeriTException("not_equiv1", "premise is not a negated equivalence")
         pt_p1, pt_p2 = pt.prop.arg.arg1, pt.prop.arg.arg
         if p1 == pt_p1 and p2 == pt_p2:
             return Thm(Or(p1, p2), pt.hyps)
@@ -589,6 +604,8 @@ class VeriTNotEquiv1(Macro):
     def eval(self, args, prevs):
         pt = prevs[0]
         p1, p2 = args
+        if not (pt.prop.is_not() and pt.prop.arg.is_equals() and p1.is_not() and p2.is_not()):
+            raise VeriTException("not_equiv2", "unexpected goal %s" % Or(*args))
         pt_p1, pt_p2 = pt.prop.arg.arg1, pt.prop.arg.arg
         if p1.arg == pt_p1 and p2.arg == pt_p2:
             return Thm(Or(p1, p2), pt.hyps)
@@ -614,6 +631,8 @@ class Equiv1Macro(Macro):
     
     def eval(self, args, prevs):
         pt = prevs[0]
+        if not (pt.prop.is_equals() and pt.prop.lhs.get_type() == BoolType):
+            raise VeriTException("equiv1", "premise is not an equivalence")
         p1, p2 = pt.prop.args
         if Not(p1) == args[0] and p2 == args[1]:
             return Thm(Or(*args), pt.hyps)
@@ -637,6 +656,8 @@ class Equiv1Macro(Macro):
     
     def eval(self, args, prevs):
         pt = prevs[0]
+        if not (pt.prop.is_equals() and pt.prop.lhs.get_type() == BoolType):
+            raise VeriTException("equiv2", "premise is not an equivalence")
         p1, p2 = pt.prop.args
         if p1 == args[0] and Not(p2) == args[1]:
             return Thm(Or(*args), pt.hyps)
@@ -832,6 +853,8 @@ class EquivPos1(Macro):
 
     def eval(self, args, prevs=None):
         arg1, arg2, arg3 = args
+        if not (arg1.is_not() and arg1.arg.is_equals()):
+            raise VeriTException("equiv_pos1", "unexpected goal %s" % Or(*args))
         eq_tm = arg1.arg
         if eq_tm.arg1 == arg2 and Not(eq_tm.arg) == arg3:
             return Thm(Or(*args))
@@ -851,6 +874,8 @@ class EquivPos2(Macro):
 
     def eval(self, args, prevs=None):
         arg1, arg2, arg3 = args
+        if not (arg1.is_not() and arg1.arg.is_equals()):
+            raise VeriTException("equiv_pos2", "unexpected goal %s" % Or(*args))
         eq_tm = arg1.arg
         if Not(eq_tm.arg1) == arg2 and eq_tm.arg == arg3:
             return Thm(Or(*args))
@@ -1824,6 +1849,10 @@ class ITEIntroMacro(Macro):
         for t in ites:
             P, x, y = t.args
             ite_intros.append(logic.mk_if(P, Eq(x, t), Eq(y, t)))
+        # The right side is the left side together with the definitions of
+        # the if-then-else terms occurring in it.
+        if not compare_sym_tm(lhs, rhs.strip_conj()[0]):
+            raise VeriTException("ite_intro", "unexpected goal")
         expected_ites = rhs.strip_conj()[1:]
 
         # Sometimes the expected result has fewer conjuncts
@@ -1982,14 +2011,15 @@ class AndNegMacro(Macro):
     def eval(self, args, prevs=None):
         conj = args[0]
         neg_disjs = args[1:]
-        expected_conj = []
-        while conj.is_conj():
-            expected_conj.append(Not(conj.arg1))
-            if Not(conj.arg) == args[-1]:
-                expected_conj.append(Not(conj.arg))
-                break
-            conj = conj.arg
-        if neg_disjs != tuple(expected_conj):
+        if not conj.is_conj():
+            raise VeriTException("and_neg", "Unexpected goal")
+
+        # The negation of every conjunct (for some way of splitting the
+        # conjunction) must appear among the remaining literals.
+        def covered(t):
+            return Not(t) in neg_disjs or (t.is_conj() and covered(t.arg1) and covered(t.arg))
+
+        if not covered(conj):
             raise VeriTException("and_neg", "Unexpected goal")
         return Thm(Or(*args))
 
@@ -4744,8 +4774,8 @@ class QNTSimplifyMacro(Macro):
         if not lhs.is_forall() and not lhs.is_exists():
             raise VeriTException("qnf_simplify", "lhs should be a quantification")
         
-        _, l_bd = lhs.strip_quant()
-        if l_bd == rhs:
+        l_vars, l_bd = lhs.strip_quant()
+        if l_bd == rhs and not any(rhs.occurs_var(v) for v in l_vars):
             return Thm(goal)
         else:
             raise VeriTException("qnf_simplify", "unexpected result")
@@ -4910,7 +4940,20 @@ class QntRmUnusedMacro(Macro):
         if free_vars != r_vars:
             raise VeriTException("qnt_rm_unused", "after removing unused vars in lhs, \
                                     lhs and rhs still have different quantified variables")
-        
+
+        # The remaining variables must be bound by the same kind of quantifier
+        def quant_kinds(tm):
+            kinds = dict()
+            while tm.is_forall() or tm.is_exists():
+                is_forall = tm.is_forall()
+                vs, tm = tm.strip_forall(num=1) if is_forall else tm.strip_exists(num=1)
+                kinds[vs[0]] = is_forall
+            return kinds
+
+        l_kinds, r_kinds = quant_kinds(lhs), quant_kinds(rhs)
+        if any(l_kinds[v] != r_kinds[v] for v in r_vars):
+            raise VeriTException("qnt_rm_unused", "lhs and rhs use different quantifiers")
+
         return Thm(goal)    
 
     def get_proof_term(self, args, prevs) -> ProofTerm:
